@@ -164,6 +164,21 @@ def eval_expr(node: ast.AST, env: Dict[str, Any]) -> Any:
         raise Unknown(norm(node))
     if isinstance(node, ast.IfExp):
         return eval_expr(node.body, env) if eval_expr(node.test, env) else eval_expr(node.orelse, env)
+    if isinstance(node, ast.Subscript):
+        key = norm(node)
+        if key in env:
+            return env[key]
+        base = eval_expr(node.value, env)
+        sl = node.slice
+        if isinstance(sl, ast.Slice):
+            lo = eval_expr(sl.lower, env) if sl.lower is not None else None
+            hi = eval_expr(sl.upper, env) if sl.upper is not None else None
+            st = eval_expr(sl.step, env) if sl.step is not None else None
+            return base[lo:hi:st]
+        try:
+            return base[eval_expr(sl, env)]
+        except (IndexError, KeyError, TypeError) as error:
+            raise Unknown(f"{key}: {error}")
     if isinstance(node, ast.Call):
         fn = norm(node.func)
         if fn in ("int", "bool", "len", "min", "max") and not node.keywords:
